@@ -2834,8 +2834,10 @@ class VM:
 
     def _handle_python_exception(self, error_type: str, message: str) -> None:
         """Convert a Python exception to a JavaScript exception and throw it."""
-        # Get the error constructor from globals
-        error_constructor = self.globals.get(error_type)
+        # The error constructor: the context's original one (not whatever a script may
+        # have bound the global name to since)
+        intrinsics = getattr(self.globals, "intrinsics", None) or {}
+        error_constructor = intrinsics.get(error_type) or self.globals.get(error_type)
         if error_constructor and hasattr(error_constructor, "_call_fn"):
             # Create the error object using the constructor
             # Strip the "TypeError: " prefix from the message if present
